@@ -840,6 +840,9 @@ class Exec:
             v = self.ev_expr(st[2], g)
             self.assign(st[1], v, g)
         elif k == "expr":
+            e_ = st[1]
+            if e_[0] == "call" and e_[1][0] == "id" and re.match(r"^(ANA_MSG_(WARNING|INFO|ERROR|DEBUG|VERBOSE)|ATH_MSG_\w+)$", e_[1][1]):
+                return            # logging macros have no effect on rows
             self.ev_expr(st[1], g)
         elif k == "ana_check":
             r = self.ev_expr(st[1], g)
@@ -869,7 +872,41 @@ class Exec:
             if st[3] is not None:
                 self.run_block(st[3], And(g, Not(cb)))
         elif k == "throw":
-            self.fault(g, "throw", st[2][:60] if st[2] else "")
+            self.fault(g, "throw", f"[{st[1]}] " + (st[2][:60] if st[2] else ""))
+        elif k == "try":
+            alive0 = self.alive
+            n0 = len(self.faults)
+            self.run_block(st[1], g)
+            new = self.faults[n0:]
+            kept, caught_by = [], [[] for _ in st[2]]
+            for f in new:
+                hit = None
+                for hi, (decl, _) in enumerate(st[2]):
+                    d = decl.replace("const", "").replace("&", " ").strip()
+                    if d == "...":
+                        ok = f[1] in ("throw", "out_of_range")
+                    elif re.match(r"^(std::)?(runtime_error|exception)\b", d):
+                        ok = f[1] == "throw" and ("[std::runtime_error]" in f[2] or (d.startswith(("std::exception", "exception")) and f[2].startswith("[std::")))
+                        ok = ok or (f[1] == "out_of_range" and re.match(r"^(std::)?exception\b", d) is not None)
+                    else:
+                        raise Unsupported(f"catch ({decl})")
+                    if ok:
+                        hit = hi
+                        break
+                if hit is None:
+                    kept.append(f)
+                else:
+                    caught_by[hit].append(f)
+            self.faults = self.faults[:n0] + kept
+            # after the try statement execution continues wherever no UNcaught fault happened
+            self.alive = alive0
+            for f in kept:
+                self.alive = And(self.alive, Not(f[0]))
+            for (decl, hb), fs in zip(st[2], caught_by):
+                if fs:
+                    self.run_block(hb, Or(*[f[0] for f in fs]))
+        elif k == "using":
+            pass          # name lookup only (type names are resolved with and without their namespace)
         elif k == "return":
             raise Unsupported("return inside generated code")
         elif k == "opaque":
